@@ -263,10 +263,18 @@ macro_rules! walk_impl {
 					if let Ok(b) = pe.get_section_bytes(sh) { c.bytes("section_bytes", b); }
 					c.fmt("dbg_sh", sh);
 					let _ = sh.name();
+					c.step("sh_name_bytes", sh.name_bytes().len());
+					let (vr, fr) = (sh.virtual_range(), sh.file_range());
+					c.step("sh_ranges", (vr.end.wrapping_sub(vr.start) ^ fr.end.wrapping_sub(fr.start)) as usize);
+					let _ = pe.section_headers().by_name(sh.name_bytes());
+					let _ = pe.section_headers().by_rva(sh.VirtualAddress);
 				}
+				c.fmt("dbg_opt", pe.optional_header());
+				c.fmt("dbg_dos", pe.dos_header());
 				for probe in [0u32, 1, 0x1000, soi.wrapping_sub(1), soi, 0xFFFF_FFFF] {
-					let _ = pe.rva_to_file_offset(probe);
+					if let Err(e) = pe.rva_to_file_offset(probe) { c.step("err_str", e.to_str().len() + format!("{}", e).len() + format!("{:?}", e).len() + e.is_null() as usize); }
 					let _ = pe.file_offset_to_rva(probe as usize);
+					let _ = pe.section_headers().by_rva(probe);
 					if let Ok(va) = pe.rva_to_va(probe) { let _ = pe.va_to_rva(va); if let Ok(b) = pe.read_bytes(va) { c.bytes("read_bytes", b); } }
 					if let Ok(b) = pe.slice_bytes(probe) { c.bytes("slice_bytes", b); }
 					if let Ok(s) = pe.derva_c_str(probe) { c.bytes("c_str", s.as_ref()); c.fmt("dbg_cstr", &s); c.step("disp_cstr", format!("{}", s).len()); }
@@ -280,6 +288,7 @@ macro_rules! walk_impl {
 					c.step("rich_records", rich.records().count());
 					c.step("rich_checksum", (rich.checksum() ^ rich.xor_key()) as usize);
 					let recs: Vec<_> = rich.records().collect();
+					c.step("rich_kinds", recs.iter().filter(|r| pelite::rich_structure::ObjectKind::from(r.product) != pelite::rich_structure::ObjectKind::Unknown).count());
 					let mut dest = vec![0u32; recs.len() * 2 + 8];
 					let _ = rich.encode(&recs, &mut dest);
 					let _ = rich.records().rev().count();
@@ -409,6 +418,8 @@ macro_rules! walk_impl {
 						n += 1;
 						c.r("exc_fn", f.image());
 						if n <= 64 {
+							c.fmt("dbg_exc_fn", &f);
+							let _ = f.pe();
 							if let Ok(b) = f.bytes() { c.bytes("exc_bytes", b); }
 							if let Ok(u) = f.unwind_info() { c.r("exc_unwind", u.image()); c.s("exc_codes", u.unwind_codes()); c.fmt("dbg_unwind", &u); }
 							let _ = exc.index_of(f.image().BeginAddress);
@@ -432,7 +443,9 @@ macro_rules! walk_impl {
 						if let Ok(e) = d.entry() {
 							c.fmt("dbg_entry", &e);
 							if let Some(cv) = e.as_code_view() { c.bytes("cv_pdb", cv.pdb_file_name().as_ref()); let _ = cv.age(); let _ = cv.format(); }
-							if let Some(m) = e.as_dbg() { c.r("misc", m.image()); }
+							if let Some(m) = e.as_dbg() { c.r("misc", m.image()); c.fmt("dbg_misc", &m); c.json("json_misc", &m); }
+							if let Some(u) = e.as_unknown() { c.bytes("dbg_unknown", u); }
+							if let Some(p) = e.as_pgo() { c.fmt("dbg_pgo", &p); c.json("json_pgo", &p); let _ = p.into_iter().count(); }
 							if let Some(p) = e.as_pgo() { c.s("pgo_image", p.image()); let mut k = 0; for s in p.iter() { k += 1; c.bytes("pgo_name", s.name.as_ref()); assert!(k <= p.image().len() + 1, "harness: more POGO records than dwords"); } c.step("pgo", k); }
 						}
 					}
@@ -449,14 +462,23 @@ macro_rules! walk_impl {
 					c.json("json_resources", &res);
 					if let Ok(root) = res.root() {
 						c.r("res_root", root.image());
+						c.fmt("dbg_res_root", &root);
+						let _ = root.resources();
+						for path in ["/Manifest/1", "/Version/1/1033", "/Icon", "Manifest", "/", "/#24/#1/#1033", "/Manifest/1/1033/x"] {
+							match root.find_data(path) { Ok(d) => { if let Ok(b) = d.bytes() { c.bytes("find_data", b); } }, Err(e) => { c.step("find_err", e.to_str().len() + format!("{}", e).len() + format!("{:?}", e).len()); let _ = std::error::Error::source(&e); } }
+							if let Ok(d) = root.find_dir(path) { c.r("find_dir", d.image()); }
+						}
 						let mut n = 0;
 						for e in root.entries() {
 							n += 1;
 							c.r("res_entry", e.image());
-							if let Ok(name) = e.name() { c.step("res_name", format!("{}", name).len()); }
+							c.fmt("dbg_res_entry", &e);
+							let _ = e.resources();
+							if let Ok(name) = e.name() { c.step("res_name", format!("{}", name).len() + format!("{:?}", name).len() + (name == 16u32) as usize + (name == pelite::resources::Name::from("MANIFEST")) as usize); }
 							if let Ok(ent) = e.entry() {
 								if let Some(d) = ent.dir() { c.r("res_dir", d.image()); c.step("res_sub", d.entries().count()); let _ = d.first(); }
-								if let Some(d) = ent.data() { c.r("res_data", d.image()); if let Ok(b) = d.bytes() { c.bytes("res_bytes", b); } }
+								if let Some(d) = ent.data() { c.r("res_data", d.image()); c.fmt("dbg_res_data", &d); if let Ok(b) = d.bytes() { c.bytes("res_bytes", b); } }
+								if let Some(d) = ent.dir() { c.fmt("dbg_res_dir", &d); c.step("res_fsck_sub", d.fsck().is_ok() as usize); c.json("json_res_dir", &d); }
 							}
 						}
 						c.step("res_entries", n);
